@@ -12,6 +12,7 @@ import os
 import re
 
 from rv import repo
+from rv.instruments.cpubudget import CpuBudgetExceeded, cpu_budget
 
 PROPERTY = "C18"
 LEVEL = "exploration"
@@ -20,7 +21,7 @@ RULE = (
     "choice lists (1-5 entries incl. numeric-looking, duplicated, spaced, case-differing) x single/multi-select x default "
     "(none / index / index list) x attempt limit {unlimited,1,2,3} x every script of up to L typed lines over a 17-entry "
     "adversarial alphabet, each followed by end of input (last line with or without newline); each dialogue runs on a "
-    "fresh question with a scripted input stream (read budget 12 end-of-input reads) and recording outputs; compared with "
+    "fresh question with a scripted input stream (read budget 12 end-of-input reads; 10 s of process CPU time per ask) and recording outputs; the random scripts also draw from nine long entries (30-80 characters); compared with "
     "the dialogue model: returned value, lines consumed, errors printed (counted structurally from the error stream), "
     "failure after exactly N invalid entries, stop at end of input. Confirmation: patterns x answers x defaults; "
     "non-interactive: the very default given is returned (None, index, index text, spaced index list, name), zero reads, zero bytes. Re-ask: one question object (choice / confirmation / validated) asked 2-3 times with random scripts, each ask compared (result, reads, both streams) with a new question. non-trivial = script with >= 1 invalid entry; "
@@ -39,6 +40,12 @@ ASSUMPTIONS = [
 ANS = ["", "a", "1", "0", "dup", "-1", "99", "zz", " b ", "a,b", "1,,2", "a, 1", "x y", "10", "A", "b,dup", "1,dup,b"]
 LISTS = [["a", "b", "c"], ["a"], ["1", "0", "c"], ["dup", "b", "dup"], ["x y", "A", "a"], ["a", "b", "c", "d", "10"]]
 LIMITS = [None, 1, 2, 3]
+CPU_BUDGET_S = 10.0
+STOP = [0]
+# long typed lines (used by the random part only): names of 30-60 characters, with and without a character that no
+# choice can contain, long lists, long digit strings
+LONG_ANS = ["Superman_and_Batman_and_Spiderman_and_Aquaman_too!", "a" * 40 + "!", "a," * 30 + "?", "0," * 40 + "0", "9" * 50, "a-b_c" * 12 + " x",
+            ",".join(["a"] * 25) + ";", "b" * 64, "-" * 45 + "."]
 QTEXT = "QQpick"
 EOF_BUDGET = 12
 
@@ -159,9 +166,16 @@ def run_dialogue(sh, lab, cfg, script, last_newline=True):
         lines[-1] = script[-1]
     io, st, out, err = lab.io(lines)
     try:
-        res = ("ret", q.ask(io))
+        with cpu_budget(CPU_BUDGET_S):
+            res = ("ret", q.ask(io))
     except ReadBudgetExceeded:
         res = ("budget",)
+    except CpuBudgetExceeded:
+        sh.case((ci, multi, default, limit, tuple(script), last_newline), True)
+        sh.violate("termination", case, "the question used more than %.0f s of CPU time on a script of %d line(s) (longest %d characters)" % (
+            CPU_BUDGET_S, len(script), max([len(x) for x in script] or [0])))
+        STOP[0] += 1  # every further case of this kind would cost the whole budget again
+        return
     except Exception as e:
         res = ("exc", type(e).__name__, str(e))
     # ---- model --------------------------------------------------------------
@@ -414,8 +428,11 @@ def run(sh, spec):
     elif spec["part"] == "random":
         rng = sh.rng
         for _ in range(spec["n"]):
+            if STOP[0] >= 3:
+                sh.note("stopped_early", "three dialogues exceeded the CPU budget; the rest of this shard's random scripts were not run")
+                break
             cfg = cf[rng.randrange(len(cf))]
-            script = tuple(rng.choice(ANS) for _ in range(rng.randint(spec["lo"], spec["hi"])))
+            script = tuple(rng.choice(ANS) if rng.random() < 0.85 else rng.choice(LONG_ANS) for _ in range(rng.randint(spec["lo"], spec["hi"])))
             run_dialogue(sh, lab, cfg, script, rng.random() < 0.8)
     else:
         interchange(sh, lab)
